@@ -395,6 +395,9 @@ def check(prop, tier):
                 if r["unreachable_asserts"]:
                     undecided.append("%s: vacuity guard: harness assertion unreachable: %s" % (
                         r["harness"], r["unreachable_asserts"][0]["desc"]))
+                if r["verdict"] != "SUCCESSFUL" and not r["failed"]:
+                    undecided.append("%s: verifier verdict %s without a parsed failing check (tool error / out of memory)\n%s" % (
+                        r["harness"], r["verdict"], r["out_tail"][-800:]))
                 if r["undetermined"] and not r["failed"]:
                     undecided.append("%s: undetermined checks: %s" % (r["harness"], r["undetermined"][0]["desc"]))
                 if r["failed"]:
